@@ -23,7 +23,7 @@ def scenarios(tier):
                  [m for m in MOVES if not q or m not in (("TRAVELZ", "I2", 1), ("TRAVEL", "O1"))]
                  + [("RETRACT",), ("RECOVER",), ("AT", "ExcludeRegion", "disable")] + ([] if q else [("ESET0",)]),
                  max_states=100000 if q else 1000000),
-        Scenario("c03-rel-mm", World, dict(prop="C03", monitors=mon, regions=["R"], emax=1, guard=no_relative_disable),
+        Scenario("c03-rel-mm", World, dict(prop="C03", monitors=mon, regions=["R"], emax=1, guard=no_relative_disable, repeat_modes=True),
                  MOVES + [("REL",), ("ABS",), ("AT", "ExcludeRegion", "disable")],
                  max_depth=6 if q else 9, max_states=3000000),
         Scenario("c03-inch", World, dict(prop="C03", monitors=mon, regions=["R"], emax=1),
@@ -33,7 +33,7 @@ def scenarios(tier):
     ]
     out.append(Scenario("c03-arcs", World, dict(prop="C03", monitors=mon, regions=["R"], emax=1, key_depth=False),
                         [("TRAVEL", "O1"), ("TRAVEL", "O2"), ("TRAVEL", "I1"), ("ARC", "cross"), ("ARC", "into"),
-                         ("ARC", "under"), ("ZMOVE", 2), ("ZMOVE", 1), ("XONLY", "O2"), ("YONLY", "I1"), ("PRINT", "O3")],
+                         ("ARC", "under"), ("ARC", "cross", "Z"), ("ARC", "into", "EZ"), ("ZMOVE", 2), ("ZMOVE", 1), ("XONLY", "O2"), ("YONLY", "I1"), ("PRINT", "O3")],
                         max_states=100000 if q else 1000000,
                         note="arcs crossing or ending in the region followed by Z-only and single-axis moves"))
     return out
